@@ -124,6 +124,16 @@ Theorem C02acc_index_other : forall it i, item_is_aot it = false -> item_is_arra
 Proof. exact index_usize_other. Qed.
 Print Assumptions C02acc_index_other.
 
+(* len / is_empty of the table-like view: defined exactly on tables and inline tables, and on a table without placeholders
+   (every parsed table: WF) it counts every entry *)
+Theorem C02acc_tablelike_len_defined : forall it, is_some (tablelike_len it) = item_is_table_like it.
+Proof. exact tablelike_len_iff. Qed.
+Print Assumptions C02acc_tablelike_len_defined.
+Theorem C02acc_table_len_counts_all : forall items,
+  Forall (fun kv => item_is_none (snd kv) = false) items -> table_len items = List.length items.
+Proof. exact table_len_no_placeholder. Qed.
+Print Assumptions C02acc_table_len_counts_all.
+
 (* ... and on every ACCEPTED document made editable: each entry the root's iteration shows is what doc["k"] and
    Item::get(k) hand out under its key, and it is not a placeholder (keys distinct, no Item::None: the WF backbone) *)
 Theorem C02acc_parsed_root_lookup : forall s d r t k it,
